@@ -261,7 +261,7 @@ type scenario struct {
 	pktEvery   time.Duration // RTCP (play) / RTP (record) datagrams from the negotiated ports (0 = none)
 	liveFor    time.Duration // length of the live phase
 	thenSilent bool          // after the live phase the peer goes silent and must be expired
-	port0      bool          // known finding: RECORD whose first UDP write fails
+	port0      bool          // regression: RECORD whose first UDP write fails
 }
 
 type scenResult struct {
@@ -365,12 +365,19 @@ func runScenario(s scenario) (res scenResult) {
 	}
 
 	if s.port0 {
-		// known finding: 400, state record, no timer: the session outlives every timeout
-		if rr != nil && rr.status >= 400 && sr.ss.State() == gortsplib.ServerSessionStateRecord {
-			deadline := timeout + s.cp + 1500*time.Millisecond
+		// regression (fixed by /repo ba05e77): the defect was 400 + state record + no timer, so that the
+		// session outlived every timeout; now the answer is 400, the state stays preRecord and the session
+		// ends with its connection
+		if rr != nil && rr.status >= 400 {
+			st := sr.ss.State()
+			deadline := timeout + s.cp + timingSlack
 			if !c.waitFor(deadline, func() bool { return sr.closes > 0 }) {
-				fail("record-udp-start-failure", "RECORD answered %d, session left in state record and still open %v after the request (ReadTimeout %v, check period %v): it is never expired", rr.status, deadline, s.read, s.cp)
+				fail("record-udp-start-failure", "RECORD answered %d, session left in state %v and still open %v after the request (ReadTimeout %v, check period %v): it is never expired", rr.status, st, deadline, s.read, s.cp)
+			} else if st == gortsplib.ServerSessionStateRecord {
+				fail("record-udp-start-failure", "RECORD answered %d but the session moved to state record", rr.status)
 			}
+		} else {
+			fail("scenario-setup", "RECORD with client_port=0-1 answered %v: the start failure was not provoked", rr)
 		}
 		return
 	}
